@@ -30,11 +30,21 @@ package slip
 //@   property C05
 //@   ensures same-type: tag(n0) == tag(n1)
 //@   ensures fix-fix: (is(v0, Fixnum) && is(v1, Fixnum)) ==> (n0 == v0 && n1 == v1)
+//@   ensures big-big: (is(v0, ptr(Bignum)) && is(v1, ptr(Bignum))) ==> (n0 == v0 && n1 == v1)
 //@   ensures canary-swap: (is(v0, Fixnum) && is(v1, Fixnum)) ==> (n0 == v1)
 //@   ensures n0-given-or-new: bigptr(n0) ==> (n0 == v0 || fresh(n0))
 //@   ensures n1-given-or-new: bigptr(n1) ==> (n1 == v1 || fresh(n1))
 //@   loop v0: invariant fix-kept: is(old(v0), Fixnum) ==> v0 == old(v0)
+//@   loop v0: invariant big-kept: (is(old(v0), ptr(Bignum)) ==> v0 == old(v0)) && (is(old(v1), ptr(Bignum)) ==> v1 == old(v1))
 //@   loop v0: invariant given-or-new: bigptr(v0) ==> (v0 == old(v0) || fresh(v0))
+
+// C05 / C16: the ordering helper answers by the exact values: for two fixnums
+// and for two bignums it is true exactly when the first value is below the second
+// (equal values are not less).
+//@ func slip.LessThan
+//@   property C05
+//@   ensures fixnums-by-value: (is(v0, Fixnum) && is(v1, Fixnum)) ==> (result0 == (asInt(v0) < asInt(v1)))
+//@   ensures bignums-by-value: (is(v0, ptr(Bignum)) && is(v1, ptr(Bignum))) ==> (result0 == (bigval(v0) < bigval(v1)))
 
 //@ func slip.(*SignedByte).AsFixOrBig
 //@   property C05
